@@ -4,7 +4,7 @@
    functions use the regenerated CHARSET, generator constants and BECH32M_CONST (Gen/GenCodecsC11.v). *)
 From PV Require Import Base.Bytes Base.Outcome Gen.GenCodecsC11 Model.Base58 Model.Bech32
   Proofs.Base58P Proofs.Bech32P Proofs.Bech32StrP Proofs.Bech32DetectP Proofs.Bech32DetectStrP
-  Proofs.Bech32Detect3P Proofs.Bech32CanonP.
+  Proofs.Bech32Detect3P Proofs.Bech32CanonP Model.ParseableStrC11 Proofs.ParseableStrC11P.
 Local Open Scope Z_scope.
 
 (* ================================ Base58 ================================================================== *)
@@ -66,6 +66,26 @@ Theorem C11_b58check_accepts_iff : forall (H : bytes -> bytes) (t : pystr) (body
   exists data, btc_a2b_base58 t = Ret data /\ body = but_last4 data /\ firstn 4 (H body) = last4 data.
 Proof. exact b58check_accepts_iff. Qed.
 Print Assumptions C11_b58check_accepts_iff.
+
+(* ================================ parseable_str: the per-object cache ======================================== *)
+(* ONE parseable_str object through ANY history of observers (parse_b58, parse_b58_double_sha256, the Groestlcoin
+   parse_b58_groestl, parse_bech32) and dict mutators (clear, pop of any key, re-wrapping) answers every time
+   exactly as a fresh str would — for ANY two checksum functions: the cache holds one key per checksum function *)
+Theorem C11_cache_history_independent : forall (dsha groestl : bytes -> bytes) (s : pystr) (ops : list pop),
+  history dsha groestl s ops = map (fresh_op dsha groestl s) ops.
+Proof. exact history_independent. Qed.
+Print Assumptions C11_cache_history_independent.
+
+(* in particular the verdict under one checksum function never leaks into the other, in either order *)
+Theorem C11_dsha_verdict_after_any_history : forall (dsha groestl : bytes -> bytes) (s : pystr) (before : list pop),
+  last (history dsha groestl s (before ++ [ODsha])) RNone = RBytes (btc_parse_b58_double_sha256 dsha s).
+Proof. exact dsha_verdict_after_any_history. Qed.
+Print Assumptions C11_dsha_verdict_after_any_history.
+
+Theorem C11_grs_verdict_after_any_history : forall (dsha groestl : bytes -> bytes) (s : pystr) (before : list pop),
+  last (history dsha groestl s (before ++ [OGrs])) RNone = RBytes (btc_parse_b58_double_sha256 groestl s).
+Proof. exact grs_verdict_after_any_history. Qed.
+Print Assumptions C11_grs_verdict_after_any_history.
 
 (* ================================ convertbits ============================================================== *)
 (* 8 -> 5 with padding then 5 -> 8 strict is the identity on every byte string; the output has ceil(8n/5) symbols *)
